@@ -253,6 +253,10 @@ func isAbsoluteStep(step jparse.Node, outermost bool) bool {
 		return isAbsoluteStep(step.Expr, false)
 	case *jparse.SortNode:
 		return isAbsoluteStep(step.Expr, false)
+	case *jparse.PathNode:
+		// The sequence of an order-by can itself be a path
+		// that starts with a variable, e.g. $v.items^(k).
+		return !outermost && len(step.Steps) > 0 && isAbsoluteStep(step.Steps[0], false)
 	default:
 		return false
 	}
